@@ -191,7 +191,25 @@ def render_rule(r, style=None, with_part=True):
     return ("#program {}. ".format(part) if with_part else "") + txt
 
 def render_prog(rules, style=None):
-    return "\n".join(render_rule(r, style) for r in rules)
+    """
+    telingo text of a typed program.  With a `style` (random.Random) the layout varies the way users write
+    programs: `#program base.` for the initial part, directives omitted while the part does not change
+    (every input starts in `base`), several rules per line.
+    """
+    if style is None:
+        return "\n".join(render_rule(r, style) for r in rules)
+    out = []
+    cur = "base"
+    for r in rules:
+        part = r[1]
+        name = "base" if (part == "initial" and style.random() < 0.4) else part
+        same = (cur == name) or (cur in ("base", "initial") and name in ("base", "initial") and False)
+        if same and style.random() < 0.6:
+            out.append(render_rule(r, style, with_part=False))
+        else:
+            out.append("#program {}. ".format(name) + render_rule(r, style, with_part=False))
+        cur = name
+    return "\n".join(out)
 
 # --------------------------------------------------------------------------- running the implementation
 
